@@ -116,6 +116,11 @@ def c07Eval : PropEval := fun i pre post =>
         | some v => { pre with name := ns, code := v :: pre.code }
         | none => { pre with name := ns }
     if encState post == encState want then none else some ("CODE.DEFINITION must yield " ++ encState want)
+  | _, some post =>
+    -- `quote_flag_only_quote`: no instruction other than NAME.QUOTE touches the quote flag, so that a pending
+    -- quote reaches exactly the next encountered name
+    if post.quote != pre.quote then some (i.str ++ " changed the quote flag: only NAME.QUOTE sets it and only the next encountered name clears it")
+    else none
   | _, _ => none
 
 /-- C08: CODE instructions against the points-based statements -/
@@ -365,6 +370,36 @@ def c20Eval : PropEval := fun i pre post =>
          else none
        else none
      | _, _ => none)
+  -- the three VALS instructions: the addressed values of the records that exist at the neighbourhood's CODE-stack
+  -- positions. The geometry is that of the REQUESTED size (the size operand is clamped to >= 0 only, never to the
+  -- number of records); positions without a record are skipped.
+  | .list op, some post =>
+    if op != .nbBvals && op != .nbIvals && op != .nbFvals then none else
+    (match pre.int, pre.float with
+     | pos :: size :: index :: dims :: _, r :: _ =>
+       let sz := (max size.toInt 0).toNat
+       let ix := (max (min (size.toInt - 1) index.toInt) 0).toNat
+       let nd := (max (min size.toInt dims.toInt) 0).toNat
+       let rad : Float32 := if r > 0 then r else 0
+       if sz ≥ 1 && nd ≥ 1 && sz ≤ 5000 then
+         let e := Topo.ceilRoot sz nd
+         if e ^ (nd - 1) < 18446744073709551616 then
+           let c := Topo.digits ix e nd
+           let ns := (List.range sz).filter fun j => Topo.withinF rad (Topo.dist2 c (Topo.digits j e nd))
+           let recs := ns.filterMap fun n => pre.code[n]?
+           let ok := match op with
+             | .nbBvals => post.bvec.length == pre.bvec.length + 1 && post.bvec.head? == some (recs.map fun it => bvalOf it pos)
+             | .nbIvals => post.ivec.length == pre.ivec.length + 1 && post.ivec.head? == some (recs.map fun it => ivalOf it pos)
+             | _ => post.fvec.length == pre.fvec.length + 1 &&
+                    (match post.fvec.head? with
+                     | some got => encLit (.fvec got) == encLit (.fvec (recs.map fun it => fvalOf it pos))
+                     | none => false)
+           if ok then none
+           else some ("the values must be those of the records at the CODE positions " ++ toString (ns.filter (· < pre.code.length)) ++
+                      " (neighbourhood " ++ toString ns ++ " of centre " ++ toString ix ++ " among " ++ toString sz ++ " on edge " ++ toString e ++ ")")
+         else none
+       else none
+     | _, _ => none)
   | _, _ => none
 
 /-- C17: the INPUT / OUTPUT instructions on the queues seen as plain bounded sequences (oldest first) -/
@@ -401,14 +436,14 @@ def c10Eval : PropEval := fun i pre post =>
     match C10.Field.all.find? (fun f => !fp.contains f && fieldItems f pre != fieldItems f post) with
     | some f => some (i.str ++ " changed " ++ fieldName f ++ ", which is outside its documented operands and results")
     | none =>
-      if C10.operandsMet i pre then none
+      if C10.operandsMet i pre && !C10.guardFails i pre then none
       else
         -- an operand is missing: nothing may be pushed or created
         match C10.Field.all.find? (fun f =>
             let a := fieldItems f pre
             let b := fieldItems f post
             if isStackField f then !(b.length ≤ a.length && a.drop (a.length - b.length) == b) else a != b) with
-        | some f => some (i.str ++ " lacks an operand but " ++ fieldName f ++ " was not merely popped")
+        | some f => some (i.str ++ (if C10.operandsMet i pre then " met a failing documented guard (zero divisor) but " else " lacks an operand but ") ++ fieldName f ++ " was not merely popped")
         | none => none
 
 /-- C15: one step may grow the state only by a modest function of its size -/
@@ -443,8 +478,10 @@ def scopeOf (pid : String) : List Instr :=
   | "C06" => [.exec .if_, .code .if_, .exec .k, .exec .s, .exec .y, .stk .exec .dup, .code .do_, .code .dostar,
               .code .quote, .exec .loop, .code .loop, .vec .i .loop, .index .current, .index .define,
               .index .destination, .index .flush, .index .increase, .index .pop]
-  | "C07" => [.define .bool, .define .int, .define .float, .define .code, .define .exec, .define .bvec,
-              .define .ivec, .define .fvec, .name .quote, .code .definition]
+  | "C07" => Instr.all.filter fun i => match i with
+    | .define _ | .code .definition | .stk .name _ => true
+    | .name o => o != .rand && o != .randbound
+    | _ => false
   | "C05" => Instr.all.filter fun i => match i with
     | .stk _ .id => false
     | .stk _ _ => true
@@ -536,7 +573,11 @@ def handleStep : List Sx → String
         let os := match obs with
           | some o => encBool done ++ " " ++ encState o
           | none => "PANIC"
-        let pf0 := evalProps .noop pre obs
+        -- a literal / name / list step is not an instruction: only the instruction-independent statements apply
+        let pf0 := String.join ((propEvals.filter fun (id, _) => id == "C01" || id == "C15").filterMap fun (id, f) =>
+          match f .noop pre obs with
+          | some why => some (" PROPFAIL " ++ id ++ " " ++ why)
+          | none => none)
         let pf1 := match pre.exec, obs with
           | .ident n :: e, some o =>
             if encState o == encState (C07.identStep pre n e) then "" else " PROPFAIL C07 name step must yield " ++ encState (C07.identStep pre n e)
